@@ -249,7 +249,16 @@ func init() {
 		for i := 0; i < nargs; i++ {
 			sv := e.loadCells(st, va.obj, e.ts.Add(va.off, e.c64(int64(i))), 1)[0].(SliceV)
 			if !sv.len.IsConst() {
-				panic(encErr("vUFBytes: argument with symbolic length"))
+				// symbolic length: the argument is (length, content zero-padded to the bound)
+				nmax := e.lenBound(sv.len, "vUFBytes argument")
+				acc := e.ts.Extract(sv.len, 15, 0)
+				for j := 0; j < nmax; j++ {
+					in := e.ts.Ult(e.c64(int64(j)), sv.len)
+					b := e.ts.Ite(in, e.byteAt(st, sv.obj, sv.off, j), e.ts.Const(8, 0))
+					acc = e.ts.Concat(acc, b)
+				}
+				args = append(args, acc)
+				continue
 			}
 			n := int(sv.len.ConstU())
 			if n == 0 {
